@@ -138,7 +138,8 @@ class MelodyDur(Stream):
             m = [rand_dur(rng, dom) for _ in range(rng.randrange(1, 13))]
             if i % 50 == 0:
                 m = [F(0)] * rng.randrange(1, 3)
-            yield {"m": m, "k": rand_factor(rng, dom), "d": rand_dur(rng, True)}
+            # the target 0 (the ornaments ask for it on zero-length notes): never a division by the melody's length
+            yield {"m": m, "k": rand_factor(rng, dom), "d": F(0) if i % 25 == 0 else rand_dur(rng, True)}
 
     def impl(self, case):
         from musiclang import Note, Melody
@@ -169,6 +170,8 @@ class MelodyDur(Stream):
             return {"sig": "concat-repeat-duration", "msg": f"{r['concat']} {r['repeat']}"}
         if all(fits(x * k) for x in m) and r["aug"] != [x * k for x in m]:
             return {"sig": "melody-augment-not-exact", "msg": str(r["aug"])}
+        if d == 0 and (r["set"] is None or any(x != 0 for x in r["set"]) or len(r["set"]) != len(m)):
+            return {"sig": "melody-set-duration-zero", "msg": f"set_duration(0) on {m}: {r['set']}"}
         if sum(m) != 0 and fits(d / sum(m)) and all(fits(x * (d / sum(m))) for x in m):
             if r["set"] is None or sum(r["set"]) != d:
                 return {"sig": "melody-set-duration-not-exact", "msg": f"asked {d}, got {None if r['set'] is None else sum(r['set'])}"}
